@@ -16,6 +16,16 @@ CHECKS = {
               "with stepper(u) on Nyquist-free states; every TLC behaviour is replayed with steppers for dt, -dt and n*dt and compared with the exact "
               "solution after each action; the wave stepper against the exact per-mode 2x2 solution; normalized/difficulty linear interfaces against the same table."),
         note="TLC, dump parser, numpy complex exp/cos/sin as evaluator of the transcendental atoms, fft conventions bound by C04; tolerance 1e-11(1+|Im z|)"),
+    "C02": dict(
+        category="model_checking", design_ref="4/C02", engine="etdrk",
+        technique="TLC stage machine over Q[E,z,1/z] (Tableau, MC_ETDRK) + mpmath-evaluated coefficient cover of the public ETDRKp + TLC trace validation (Trace_ETDRK) of recorded stage traces of every semi-linear stepper",
+        text=("MC_ETDRK executes the stage wiring of ETDRK0-4 symbolically in the ring Q[E,z,1/z] and TLC checks: wiring == canonical Cox-Matthews weights, "
+              "row sums c_i*phi1(c_i z), explicitness, removable singularity at z=0, classical limit with all Butcher conditions up to order p, and the "
+              "stability function == exp(z+w) through total degree p. The ring elements TLC reached are evaluated by mpmath on a dense cover of z (real "
+              "axis 0, +-1e-8..20, down to -1e15; imaginary axis; left half plane) and compared with every stage input and the result of the public "
+              "ETDRKp driven with a recording user-defined nonlinear function; one step of every public semi-linear stepper class x order 0-4 is "
+              "recorded at the nonlinear-function boundary and validated by TLC against the stage machine, with the linear symbol from Symbols.tla."),
+        note="TLC, mpmath (60+ digits), the BaseNonlinearFun call boundary, documented linear parts transcribed in Symbols.tla; tolerance 1e-10 relative (cover), 2e5 ulps (traces)"),
     "C04": dict(
         category="model_checking", design_ref="4/C04", engine="layout",
         technique="TLC-exhaustive layout/FFT tables (MC_Layout, MC_Fft) replayed entry-by-entry into exponax",
@@ -79,6 +89,8 @@ def main():
              "kind_free_text": "TLC exhaustive tables + spec->code replay"},
             {"name": "linear", "path": "spec/Symbols.tla spec/MC_Linear.tla harness/linear.py harness/checks/c01.py", "serves_properties": ["C01"],
              "kind_free_text": "TLC symbol tables + behaviours, spec->code replay"},
+            {"name": "etdrk", "path": "spec/Tableau.tla spec/MC_ETDRK.tla spec/Trace_ETDRK.tla harness/etdrk.py harness/checks/c02.py", "serves_properties": ["C02"],
+             "kind_free_text": "TLC symbolic stage machine + coefficient cover + trace validation"},
             {"name": "rollout", "path": "spec/MC_Rollout.tla spec/Trace_Rollout.tla harness/checks/c14.py", "serves_properties": ["C14"],
              "kind_free_text": "TLC state machine + replay + trace validation"},
         ],
